@@ -7,9 +7,11 @@ CONSTANTS MaxT
 Marker(i) == (i * 5 + 1) % 251
 EndTypes == {0, 1, 256}
 EndSizes == {0, 8, 9, 16}
-LParams == { [T |-> T, res |-> r, et |-> et, es |-> es, null |-> FALSE]
-             : T \in 0..MaxT, r \in {0, 255}, et \in EndTypes, es \in EndSizes }
-           \cup { [T |-> 16, res |-> 0, et |-> 0, es |-> 8, null |-> TRUE] }
+\* mid: what lies between the header and the last 8 bytes - marker bytes, or end-tag look-alikes (every 8-byte chunk
+\* reads type 0, size 8): only the LAST 8 bytes decide whether the region has its end tag
+LParams == { [T |-> T, res |-> r, et |-> et, es |-> es, null |-> FALSE, mid |-> m]
+             : T \in 0..MaxT, r \in {0, 255}, et \in EndTypes, es \in EndSizes, m \in {"marker", "endlike"} }
+           \cup { [T |-> 16, res |-> 0, et |-> 0, es |-> 8, null |-> TRUE, mid |-> "marker"] }
 
 \* region of max(8, T) bytes: header, markers, the last 8 bytes of [0, T) are the end-tag candidate
 LImage(p) ==
@@ -18,6 +20,7 @@ LImage(p) ==
       tail == U32Bytes(p.et) \o U32Bytes(p.es) IN
   [i \in 1..n |-> IF i <= 8 THEN hdr[i]
                   ELSE IF p.T >= 16 /\ i > p.T - 8 THEN tail[i - (p.T - 8)]
+                  ELSE IF p.mid = "endlike" THEN EndTagBytes[((i - 1) % 8) + 1]
                   ELSE Marker(i)]
 
 LCase(p) ==
